@@ -34,7 +34,10 @@ def write_cases(cases, path):
 
 def _run(cmd, timeout):
     t0 = time.time()
-    p = subprocess.run(cmd, stdout=subprocess.PIPE, stderr=subprocess.PIPE, timeout=timeout)
+    try:
+        p = subprocess.run(cmd, stdout=subprocess.PIPE, stderr=subprocess.PIPE, timeout=timeout)
+    except subprocess.TimeoutExpired as e:
+        return 124, (e.stdout or b'').decode('utf-8', 'replace'), 'TIMEOUT after %ss' % timeout, time.time() - t0
     return p.returncode, p.stdout.decode('utf-8', 'replace'), p.stderr.decode('utf-8', 'replace'), time.time() - t0
 
 def parse_results(out):
@@ -49,7 +52,7 @@ def parse_results(out):
         res[k] = v
     return res, extra
 
-def run_impl(path, threads=1, timeout=600, release=False):
+def run_impl(path, threads=1, timeout=300, release=False):
     exe = HARNESS_REL if release else HARNESS
     rc, out, err, dt = _run([exe, 'run', path, str(threads)], timeout)
     res, extra = parse_results(out)
